@@ -67,6 +67,8 @@ class RealWorld:
 
     def __enter__(self):
         modelfs.uninstall_global()
+        if self.root is not None:
+            return self          # already materialised: later phases see earlier writes
         base = os.environ.get('TMPDIR', '/tmp')
         self.tmp = tempfile.mkdtemp(prefix='vf-real-', dir=base)
         self.root = self.root_path = os.path.join(self.tmp, 'r')
@@ -76,9 +78,12 @@ class RealWorld:
         return self
 
     def __exit__(self, *a):
-        if not self.keep:
-            shutil.rmtree(self.tmp, ignore_errors=True)
         return False
+
+    def close(self):
+        if self.root is not None and not self.keep:
+            shutil.rmtree(self.tmp, ignore_errors=True)
+        self.root = self.root_path = None
 
     # -- writing ------------------------------------------------------------------
     def _dir(self, node, real, rel):
@@ -182,3 +187,62 @@ class RealWorld:
         for h, hl in MH.items():
             info[h] = hashlib.new(hl, data).hexdigest()
         self.manifest_real[rel] = info
+
+
+def readback(root, top_name='Manifest'):
+    """Build a ModelFS from a real tree (after a real update): content tokens are derived
+    from real digests, so that the model oracles can be evaluated on what is really on
+    disk.  Entry checksum values are mapped to the token of the file whose real digest
+    they equal (under that hash), or to a token that matches nothing."""
+    from gemato.compression import (open_potentially_compressed_path,
+                                    get_potential_compressed_names)
+    from gemato.exceptions import GematoException
+    from gemato.manifest import ManifestFile
+    fs = modelfs.ModelFS()
+    by_digest = {}          # (mhash, hexdigest) -> token
+    pending = []
+    mnames = set(get_potential_compressed_names('Manifest'))
+
+    def scan(real, rel):
+        for name in sorted(os.listdir(real)):
+            p = os.path.join(real, name)
+            r = posixpath.join(rel, name)
+            if os.path.islink(p):
+                tgt = os.path.relpath(os.path.realpath(p), root)
+                fs.add_symlink(r, '' if tgt == '.' else tgt)
+            elif os.path.isdir(p):
+                fs.add_dir(r)
+                scan(p, r)
+            elif os.path.isfile(p):
+                with open(p, 'rb') as f:
+                    data = f.read()
+                tok = hashlib.md5(data).hexdigest()
+                for h, hl in MH.items():
+                    by_digest[(h, hashlib.new(hl, data).hexdigest())] = tok
+                st = os.stat(p)
+                node = fs.add_file(r, size=len(data), digest=tok, mtime=int(st.st_mtime))
+                if name in mnames:
+                    pending.append((p, r, node))
+            else:
+                fs.add_file(r, kind='fifo')
+    scan(root, '')
+    for p, r, node in pending:
+        mf = ManifestFile()
+        try:
+            with open_potentially_compressed_path(p, 'r', encoding='utf8') as f:
+                mf.load(f, verify_openpgp=False)
+        except (GematoException, OSError, EOFError, ValueError):
+            node.invalid = True
+            continue
+        ents = []
+        for e in mf.entries:
+            e2 = modelfs.copy_entry(e)
+            if hasattr(e2, 'checksums'):
+                e2.checksums = {
+                    h: modelfs.MHASH_PREFIX.get(h, '?') + by_digest.get((h, val),
+                                                                         'nomatch:' + val)
+                    for h, val in e.checksums.items()}
+            ents.append(e2)
+        node.entries = ents
+        node.is_manifest = True
+    return fs
